@@ -175,9 +175,7 @@ macro_rules! matches_instance {
             if tb.first() == Some(&b'$') {
                 assert!(!got, "matches: a $-topic must be matched by no filter");
             }
-            if $T > 0 && $F > 0 {
-                kani::cover!(vt && vf && got, "valid pair that matches");
-            }
+            kani::cover!($F == 0 || (vt && vf && got), "valid pair that matches");
             kani::cover!(vt && !got, "pair that does not match");
         });
     };
